@@ -98,3 +98,29 @@ Definition circbip_def (n m : nat) (diffs : list Z) (x y : nat) : bool :=
 Definition builds (c : option dense) (n : nat) (def : nat -> nat -> bool) : Prop :=
   exists g, c = Some g /\ dwf g /\ dn g = n /\
     forall x y, x < n -> y < n -> dadj g x y = def x y.
+
+(* ------------------------------------------------------------------ definitions of the transformations *)
+Definition a_compl (a : agraph) : agraph :=
+  mkA (an a) (fun x y => (x <? an a) && (y <? an a) && negb (x =? y) && negb (adj a x y)).
+
+(* flower snark J_n: blocks a_i b_i c_i d_i = 4i..4i+3; a_i is joined to b_i, c_i, d_i; b, c, d are
+   joined to the same letter of the next block, and the last block is joined back to the first
+   as b-b, c-d, d-c (so the c's and d's form one cycle of length 2n) *)
+Definition flower_lt (n lo hi : nat) : bool :=
+  ((lo mod 4 =? 0) && (hi <=? lo + 3)) || (negb (lo mod 4 =? 0) && (hi =? lo + 4)) ||
+  ((lo =? 1) && (hi =? 4 * n - 3)) || ((lo =? 3) && (hi =? 4 * n - 2)) || ((lo =? 2) && (hi =? 4 * n - 1)).
+
+Definition flower_def (n x y : nat) : bool :=
+  if x <? y then flower_lt n x y else if y <? x then flower_lt n y x else false.
+
+(* the x-th k-subset in colexicographic order, as comb.Unrank computes it *)
+Definition ksubset (k x : nat) : list nat := match unrank k x with Some l => l | None => [] end.
+
+(* Kneser graph: the k-subsets x and y have no common element (IntersectionSize = 0) *)
+Definition kneser_def (k x y : nat) : bool :=
+  negb (x =? y) && (isize (ksubset k x) (ksubset k y) =? 0).
+
+(* bipartite Kneser graph for 2k <= n: the k-subset x < N is contained in the (n-k)-subset y - N *)
+Definition bikneser_def (n k N x y : nat) : bool :=
+  let side (a b : nat) := (a <? N) && (N <=? b) && (isize (ksubset k a) (ksubset (n - k) (b - N)) =? k) in
+  side x y || side y x.
